@@ -32,6 +32,10 @@ func sceneCall() {
 	}
 	capAmt := vf.Amount("cap")
 	feeCap := coins(capAmt)
+	if vf.Bool("emptyFeeCap") { // an empty coin list passes stateless validation
+		feeCap = sdk.Coins{}
+		capAmt = sdk.ZeroInt()
+	}
 	timeout := vf.Int64("timeout")
 	super, repeated := vf.Bool("super"), vf.Bool("repeated")
 	freq, total := vf.Uint64("freq"), vf.Int64("total")
@@ -45,7 +49,7 @@ func sceneCall() {
 	otherID := vf.Bytes("otherCtx", 40)
 	id := types.GenerateRequestContextID(tx, mi)
 	vf.Assume(string(otherID) != string(id))
-	other := types.NewRequestContext(Svc, provs, consumer, InputOK, feeCap, 1, false, false, 0, 0, 1, 0, 0, 1, types.BATCHCOMPLETED, types.PAUSED, 1, "")
+	other := types.NewRequestContext(Svc, provs, consumer, InputOK, coins(sdk.OneInt()), 1, false, false, 0, 0, 1, 0, 0, 1, types.BATCHCOMPLETED, types.PAUSED, 1, "")
 	k.SetRequestContext(ctx, otherID, other)
 
 	_, err, panicked := vf.Deliver(ctx, service.NewHandler(k), msg)
